@@ -566,7 +566,29 @@ Definition first_token (l : list Z) : list Z := fst (span_nonspace (skip_space l
 
 Definition mem_str (w : list Z) (ws : list (list Z)) : bool := existsb (list_eqb w) ws.
 
+(* the white-space separated words of a line, as successive `line_is >> word` return them *)
+Fixpoint words_aux (l : list Z) (cur : list Z) : list (list Z) :=
+  match l with
+  | [] => match cur with [] => [] | _ => [rev cur] end
+  | c :: t => if is_space c then (match cur with [] => words_aux t [] | _ => rev cur :: words_aux t [] end)
+              else words_aux t (c :: cur)
+  end.
+Definition words (l : list Z) : list (list Z) := words_aux l [].
+
+(* a word after the first one: only braces (what is left of a block whose contents were read), or a keyword *)
+Definition word_ok (allowed : list (list Z)) (w : list Z) : bool :=
+  forallb is_brace w || mem_str (to_lower w) allowed.
+
 Definition line_ok (allowed : list (list Z)) (l : list Z) : bool :=
+  let l' := strip_cr l in
+  match l' with
+  | [] => true
+  | _ => if forallb is_ws l' then true
+         else mem_str (to_lower (first_token l')) allowed && forallb (word_ok allowed) (tl (words l'))
+  end.
+
+(* the pinned check looked at the first word only *)
+Definition line_ok_pinned (allowed : list (list Z)) (l : list Z) : bool :=
   let l' := strip_cr l in
   match l' with
   | [] => true
@@ -586,6 +608,7 @@ Definition check_keywords (allowed : list (list Z)) (conf : list Z) (rs : list k
 
 Inductive kind := KReal | KInt | KBool | KString | KRealVec | KRealVecN (n : nat) | KBlock
 | KSize | KLong | KIntVec | KWordVec   (* size_t, long, std::vector<int>, std::vector<std::string> *)
+| KTupleVec (n : nat)            (* std::vector<cvm::rvector> (3), std::vector<cvm::quaternion> (4) *)
 | KTuple (n : nat)               (* cvm::rvector (3), cvm::quaternion (4), colvarvalue of type vector (n) *)
 | KReq (k : kind).               (* the same keyword looked up with parse_required *)
 
@@ -595,7 +618,7 @@ Definition is_required (k : kind) : bool := match k with KReq _ => true | _ => f
 Inductive value :=
 | VNotGiven
 | VReal (d : dec) | VInt (z : Z) | VBool (b : bool) | VString (s : list Z)
-| VReals (l : list dec) | VBlocks (l : list (list Z)) | VTuple (l : list dec) | VInts (l : list Z) | VWords (l : list (list Z))
+| VReals (l : list dec) | VBlocks (l : list (list Z)) | VTuple (l : list dec) | VInts (l : list Z) | VWords (l : list (list Z)) | VTuples (l : list (list dec))
 | VBad.                                           (* an error was raised for this keyword *)
 
 Record pstate := { ps_allowed : list (list Z); ps_regs : list kl_reg; ps_err : bool; ps_oof : bool;
@@ -641,6 +664,8 @@ Definition get_keyval (strict : bool) (conf : list Z) (st : pstate) (kk : list Z
                      with VAccept l => (VInts l, false) | VReject => (VBad, true) end
         | KWordVec => match (if strict then vector_dyn extract_word data else vector_dyn_lenient extract_word data)
                       with VAccept l => (VWords l, false) | VReject => (VBad, true) end
+        | KTupleVec n => match (if strict then vector_dyn (extract_tuple n) data else vector_dyn_lenient (extract_tuple n) data)
+                         with VAccept l => (VTuples l, false) | VReject => (VBad, true) end
         | KTuple n => match (if strict then scalar_value (extract_tuple n) data else scalar_value_lenient (extract_tuple n) data)
                       with SAccept l => (VTuple l, false) | SReject => (VBad, true) end
         | KBlock => (VBad, true)
